@@ -94,6 +94,14 @@ def run(ctx):
         files = [{"p": f"k{j}", "n": cpf * 64 - (j % 2), "s": 777 * i + j} for j in range(nf)]
         cases.append({"name": f"parked-{nf}f-{cpf}c-{st}s-{tr}", "files": files, "chunk": 64, "streams": st, "conns": 1, "transport": tr, "noroot": True,
                       "resume": True, "timeout_ms": 12000, "count_hits": True, "delays": {"recv.file_begin.enter": 450}})
+    # several connections with different latencies: the first connection (which carries the control stream) slower than the others by
+    # less and by more than the sender's 300 ms resume grace, and the other way round
+    for i, (nf, cpf, st, delays) in enumerate([(1, 3, 2, [120, 0]), (2, 2, 4, [450, 0]), (3, 1, 3, [450, 0, 30]), (1, 5, 4, [0, 200]), (2, 3, 6, [60, 0, 0, 250])]
+                                              + ([(rng.range(1, 4), rng.range(1, 5), rng.range(2, 8), [rng.choice([0, 30, 120, 450]) for _ in range(rng.range(2, 4))]) for _ in range(8)] if full else [])):
+        for resume in (False, True):
+            files = [{"p": f"m{j}", "n": max(1, cpf * 64 - j), "s": 4321 * i + j} for j in range(nf)]
+            cases.append({"name": f"skew-{nf}f-{cpf}c-{st}s-{'-'.join(map(str, delays))}-{'resume' if resume else 'fresh'}", "files": files, "chunk": 64, "streams": st,
+                          "conns": len(delays), "conn_delays_ms": delays, "transport": "netsim", "noroot": True, "resume": resume, "timeout_ms": 12000})
     rc, results = G.run_xfer(ctx, exe, "grid", cases, timeout=1700)
     if rc != 0 or len(results) != len(cases):
         ctx.oblige("harness:run", False, f"rc={rc} results={len(results)}/{len(cases)} {ctx.harness_stderr[-300:]}")
@@ -134,7 +142,7 @@ def run(ctx):
         "scheduler_histories": len(sched), "scheduler_disagreements": len(sbad), "wakeup_storm_rounds": fw_rounds, "wakeup_storm_parked_readers": fw_parked,
         "evaluations": len(bcases) + len(ncases) + len(cases) + len(sched), "distinct_nontrivial": completed,
         "rule": "grid files {0,1,2,5} x chunks-per-file {0,1,2,5} x streams {1,2,4,8} x connections {1,2,4} x resume {off,on,on-after-partial} over netsim with QUIC stream-visibility semantics "
-                "(quick: one third sampled; thorough: complete), seeded points of the same grid over real loopback QUIC, trees with unusual legal names; the same with FileBegin handling delayed by 40 ms / 450 ms (beyond the sender's 300 ms resume grace: chunk frames overtake it) and every data reader held for 150 ms / 700 ms between its state look-up and its wait for FileBegin (lost wake-up window); files of 32-128 chunks with FileBegin held 450 ms and readers not held (several readers parked for one file, all must be woken); every run must end with both endpoints nil inside the watchdog. "
+                "(quick: one third sampled; thorough: complete), seeded points of the same grid over real loopback QUIC, trees with unusual legal names; the same with FileBegin handling delayed by 40 ms / 450 ms (beyond the sender's 300 ms resume grace: chunk frames overtake it) and every data reader held for 150 ms / 700 ms between its state look-up and its wait for FileBegin (lost wake-up window); files of 32-128 chunks with FileBegin held 450 ms and readers not held (several readers parked for one file, all must be woken); 2-4 connections with one-way latencies 0-450 ms each (the control connection slower or faster than the others, resume on and off); every run must end with both endpoints nil inside the watchdog. "
                 "budget arithmetic exhaustive on files<12, requested<12, connections<6 plus random; validateRelPath on legal odd names. non-trivial = completed end-to-end runs",
         "samples": [cases[0]["name"], cases[len(cases) // 2]["name"], bcases[17], ncases[0]],
         "completed": completed, "slower_than_3s": slow, "parked_readers_per_case": parked, "disagreements_model_vs_impl": len(d0) + len(d1),
